@@ -168,6 +168,8 @@ func ruleAuthZen(e *Engine, r *Reporter) {
 		})
 	}
 
+	ruleAuthzenModelAndRoles(e, r, fns)
+
 	r.Rule("authzen-search-projection", "SubjectSearch and ResourceSearch return a projection of every element of the native ListUsers / StreamedListObjects result (no element dropped except by type/format parsing), and ActionSearch returns exactly the relations whose BatchCheck result is allowed", 3)
 	ss := e.Func("pkg/server", "Server.SubjectSearch")
 	loopOK := false
@@ -230,4 +232,176 @@ func shorten(s string, n int) string {
 		return s
 	}
 	return s[:n] + "…"
+}
+
+// ---- strengthening: model pinning and argument roles ---------------------------------------------
+
+// modelIDSource: v is the AuthZEN request's pinned model id: the header extraction, a model id resolved from
+// it, or a parameter that receives one of those at every call site.
+func (e *Engine) modelIDSource(v ssa.Value, depth int) bool {
+	return derivesFrom(v, func(x ssa.Value) bool {
+		switch y := x.(type) {
+		case *ssa.Call:
+			if o := calleeObj(y); o != nil && (o.Name() == "getAuthorizationModelIDFromHeader" || o.Name() == "GetAuthorizationModelID") {
+				return true
+			}
+		case *ssa.Parameter:
+			if depth <= 0 {
+				return false
+			}
+			fn := y.Parent()
+			idx := -1
+			for i, p := range fn.Params {
+				if p == y {
+					idx = i
+				}
+			}
+			sites := e.allCallSites(fn)
+			if len(sites) == 0 || idx < 0 {
+				return false
+			}
+			for _, cs := range sites {
+				args := cs.Common().Args
+				if idx >= len(args) || !e.modelIDSource(args[idx], depth-1) {
+					return false
+				}
+			}
+			return true
+		}
+		return false
+	})
+}
+
+func ruleAuthzenModelAndRoles(e *Engine, r *Reporter, fns []*ssa.Function) {
+	r.Rule("authzen-model-pinned", "every native request an AuthZEN handler builds that can carry a model id carries the one pinned by the AuthZEN request (header) — the batched path included", 4)
+	for _, f := range fns {
+		type lit struct {
+			store, model *ssa.Store
+		}
+		lits := map[ssa.Value]*lit{}
+		var order []ssa.Value
+		eachInstr(f, true, func(in ssa.Instruction) {
+			st, ok := in.(*ssa.Store)
+			if !ok {
+				return
+			}
+			fa, ok := st.Addr.(*ssa.FieldAddr)
+			if !ok {
+				return
+			}
+			tn := typeBaseName(derefType(fa.X.Type()))
+			if !strings.HasSuffix(tn, "Request") || tn == "EvaluationRequest" {
+				return
+			}
+			stt, ok := derefType(fa.X.Type()).Underlying().(*types.Struct)
+			if !ok {
+				return
+			}
+			hasModel := false
+			for i := 0; i < stt.NumFields(); i++ {
+				if stt.Field(i).Name() == "AuthorizationModelId" {
+					hasModel = true
+				}
+			}
+			if !hasModel {
+				return
+			}
+			l := lits[fa.X]
+			if l == nil {
+				l = &lit{}
+				lits[fa.X] = l
+				order = append(order, fa.X)
+			}
+			switch fieldName(fa.X.Type(), fa.Field) {
+			case "StoreId":
+				l.store = st
+			case "AuthorizationModelId":
+				l.model = st
+			}
+		})
+		ord := map[string]int{}
+		for _, x := range order {
+			l := lits[x]
+			if l.store == nil {
+				continue
+			}
+			tn := typeBaseName(derefType(x.Type()))
+			key := fmt.Sprintf("%s | %s.AuthorizationModelId #%d", fname(f), tn, ord[tn])
+			ord[tn]++
+			if l.model == nil {
+				r.Check(false, key, e.instrPos(l.store), "", "the native "+tn+" is built without AuthorizationModelId: it is evaluated against the latest model instead of the one the AuthZEN request pins")
+				continue
+			}
+			r.Check(e.modelIDSource(l.model.Val, 2), key, e.instrPos(l.model), "model = "+describe_(l.model.Val), "the native request's model id does not come from the AuthZEN request's pinned model: "+describe_(l.model.Val))
+		}
+	}
+
+	r.Rule("authzen-property-roles", "every call of mergePropertiesToContext passes the request's subject as subject, its resource as resource and its action as action", 3)
+	n := 0
+	for _, f := range fns {
+		eachInstr(f, true, func(in ssa.Instruction) {
+			c, ok := in.(ssa.CallInstruction)
+			if !ok || !isCallNamed(in, "mergePropertiesToContext") {
+				return
+			}
+			args := c.Common().Args
+			if len(args) != 4 {
+				return
+			}
+			roles := []string{"", "Subject", "Resource", "Action"}
+			for i := 1; i <= 3; i++ {
+				n++
+				ok := isNilConst(args[i]) || e.roleSource(args[i], roles[i], 2) // nil: the request kind has no such entity
+				r.Check(ok, fmt.Sprintf("%s | mergePropertiesToContext #%d %s", fname(f), n, strings.ToLower(roles[i])), e.instrPos(in), roles[i]+" <- "+describe_(args[i]), fmt.Sprintf("argument %d (%s properties) is %s: properties are namespaced under the wrong prefix, so conditions see different context than the native call would", i, strings.ToLower(roles[i]), describe_(args[i])))
+			}
+		})
+	}
+}
+
+// roleSource: v comes from req.Get<Role>() (or a parameter receiving that at every call site, or the
+// per-evaluation override resolved by resolveEvalFields in the same result position).
+func (e *Engine) roleSource(v ssa.Value, role string, depth int) bool {
+	pos := map[string]int{"Subject": 0, "Resource": 1, "Action": 2}[role]
+	return derivesFrom(v, func(x ssa.Value) bool {
+		switch y := x.(type) {
+		case *ssa.Extract:
+			if c, ok := y.Tuple.(*ssa.Call); ok {
+				if o := calleeObj(c); o != nil && o.Name() == "resolveEvalFields" {
+					return y.Index == pos
+				}
+			}
+		case *ssa.Call:
+			if o := calleeObj(y); o != nil {
+				if o.Name() == "Get"+role {
+					return true
+				}
+				if strings.HasPrefix(o.Name(), "Get") && (o.Name() == "GetSubject" || o.Name() == "GetResource" || o.Name() == "GetAction") {
+					return false
+				}
+			}
+		case *ssa.Parameter:
+			if depth <= 0 {
+				return false
+			}
+			fn := y.Parent()
+			idx := -1
+			for i, p := range fn.Params {
+				if p == y {
+					idx = i
+				}
+			}
+			sites := e.allCallSites(fn)
+			if len(sites) == 0 || idx < 0 {
+				return false
+			}
+			for _, cs := range sites {
+				args := cs.Common().Args
+				if idx >= len(args) || !e.roleSource(args[idx], role, depth-1) {
+					return false
+				}
+			}
+			return true
+		}
+		return false
+	})
 }
